@@ -16,6 +16,14 @@ CHECKS = {
         "DESIGN.md §3.A, §5 C06",
         "tokex",
     ),
+    "C07": (
+        "exploration",
+        "exhaustive sweep of a bounded program pool (all accepted token strings <= N per context from TokEx, reference-model sentences, corpus and its accepted 1-token edits) through parse/generate/parse",
+        "Every program of the bounded, deterministic pool is parsed, regenerated with both generator configurations, re-parsed and compared structurally (slots, not children()), and regenerated again (fixed point). Exhaustive inside the pool bounds.",
+        "Pool bounds: token strings <= N after six context prefixes, model sentences at the tier's depth, corpus files and their 1-token edits. AST equality ignores coordinates only.",
+        "DESIGN.md §4.9, §5 C07",
+        "pool",
+    ),
 }
 
 PENDING = {
